@@ -484,7 +484,7 @@ func hostileCases(tier string) []hostile {
 		// must refuse (a plain error, not a *ParseError); one byte less must pass
 		big := strings.Repeat("x", 1<<24)
 		hs = append(hs, hostile{kase{strict: false, entry: 'P', shallow: true, input: "S1F1 <A[16777216] \"" + big + "\">.", class: "big/A-over"}, hintLim})
-		hs = append(hs, hostile{kase{strict: true, entry: 'M', shallow: true, input: "S1F1 <A \"" + big[1:] + "\">.", class: "big/A-max-strict"}, hintLim})
+		hs = append(hs, hostile{kase{strict: false, entry: 'M', shallow: true, input: "S1F1 <A \"" + big[1:] + "\">.", class: "big/A-max"}, hintLim})
 		hs = append(hs, hostile{kase{strict: false, entry: 'P', shallow: true, input: "S1F1 <J \"" + big + "\">.", class: "big/J-over"}, hintLim})
 	}
 	return hs
